@@ -2,7 +2,7 @@
 
 ENGINES = [
     {'name': 'vloop', 'path': 'vp/vloop.py', 'serves_properties': ['C03'], 'kind_free_text': 'virtual asyncio loop with explicit, classified ready-queue (order-preserving-delay scheduler seam)'},
-    {'name': 'explore', 'path': 'vp/explore.py', 'serves_properties': ['C03', 'C06', 'C19', 'C20'], 'kind_free_text': 'deviation-bounded stateless schedule explorer (replay prefix on fresh objects, divergence = harness error)'},
+    {'name': 'explore', 'path': 'vp/explore.py', 'serves_properties': ['C03', 'C06', 'C07', 'C08', 'C19', 'C20'], 'kind_free_text': 'deviation-bounded stateless schedule explorer (replay prefix on fresh objects, divergence = harness error)'},
     {'name': 'enumerate', 'path': 'vp/props/*.py', 'serves_properties': ['C01', 'C02', 'C04', 'C05', 'C10', 'C11', 'C14', 'C15', 'C18'], 'kind_free_text': 'bounded-exhaustive enumeration of inputs/histories against a Python reference model, executed on the real code'},
 ]
 
@@ -109,6 +109,21 @@ CLAIMS['C20'] = {
     'technique': 'bounded-exhaustive enumeration of RFCOMM geometries x write sequences x DLC operation histories on two real stacks with an independent wire decoder and credit ledger, deviation-bounded schedule exploration, exhaustive HFP feature-subset and AT-command arity/value enumeration',
     'text': 'stream: max frame size per side {23,24,127,128,129,1000,32767} x initial credits 1..7 x L2CAP MTU per side x ACL packet length (<=2 parameters off default, 490 configurations) x write-size sequences both directions {1,E-1,E,E+1,3E,20E,..} x 3 issue modes: exact bytes at each sink, drain() done, payload <= announced N1 (N1-1 with credit octet), frame <= peer L2CAP MTU, wire-derived credit ledger never <= 0 at send. multi: every operation history of depth 5 (6) over 3 DLCs (open, close by either side, transfer, concurrent open/close, two simultaneous closes, shutdown, restart) with model/wire/both ends compared after every op. sched: 5 scripts under all order-preserving delays <=1 (<=2) deviations. slc: 32x32 feature subsets the SLC code branches on x indicator/codec/call-hold lists: SLC completes, both ends agree. at: every AG handler at arity n-1..n+1 x value classes x AG states and every HF-emitted command: exactly one final result code, AG not wedged.',
     'note': 'Frame sizes are boundary values; only client-initiated DLCs; MSC flow control / RPN / RLS not modelled. "Negotiated maximum" is read per direction (a frame fits what its receiver announced).',
+}
+
+CLAIMS['C07'] = {
+    'level': 'exploration',
+    'engine': 'explore',
+    'technique': 'bounded-exhaustive enumeration of (MTU, MPS, credits) x write-size sequences x channel kinds x CID-translation shim on two real stacks with an independent wire decoder and credit ledger, plus deviation-bounded schedule exploration of credit-starved transfers',
+    'text': 'params: (mtu, mps, credits) per side from {23,24,100,2048,65535} x {23,24,64,2046,2048,65533} x {1,2,3,256,65535} with <=2 parameters off default (LE CoC) / <=1 (enhanced x1, x2, and a CID-translating shim on the client or the server side so that each end talks to a peer whose CIDs differ from its own allocation) x every write-size sequence over {1, mps-3..mps, mtu-1, mtu, mtu+1, 2mtu+1} in both directions concurrently x 3 issue styles: wire bytes are a prefix of the bytes written and the sink gets the completed SDUs; the frame-derived credit ledger (credits counted only once delivered to the sender) is >= 1 at every data-frame send; frame <= peer MPS, SDU <= peer MTU; at quiescence everything arrived and drain() returned. sched / early: credit-starved transfers and a server writing from its connection handler under all order-preserving delays with <=1 (<=2) deviations.',
+    'note': 'Channel close/reopen is C09\'s; zero-length writes are outside the statement. Four recorded findings share one cause: data arriving before the application could set a sink is dropped.',
+}
+CLAIMS['C08'] = {
+    'level': 'exploration',
+    'engine': 'explore',
+    'technique': 'bounded-exhaustive enumeration of mode pairs x MTU/MPS/window/FCS x SDU size sequences on two real stacks with an independent ERTM wire decoder (control fields, SAR, sequence numbers, CRC-16), deviation-bounded schedule exploration, and retransmission-timer firing enumerated before every message',
+    'text': 'setup: mode pairs B/B, B/E, E/B, E/E x FCS per side x MTU/MPS/window variants x classic and LE links: both ends OPEN in the same mode or both CLOSED with the caller failed, never pending; under all schedules with <=1 (<=2) deviations. data: ERTM configurations from mtu {48,256,1000,65535} x mps {23,24,256,1024} x window {1,2,3,63} x FCS with <=1 (<=2) parameters off default, SDU sequences over {1, mps-1, mps, mps+1, 3mps, 65mps+1 (TxSeq wraps), mtu, 0} one way / both ways / echo: SDUs at each sink equal SDUs written; TxSeq advances modulo 64 without gaps; unacknowledged I-frames (by ReqSeq delivered to the sender) never exceed the window in the peer\'s Configure Request; SAR well-formed; FCS equals an independent CRC. timer: the virtual clock jumps past the retransmission time-out before every message of ERTM transfers (an acknowledgement delayed beyond the timer, nothing lost): the transfer still completes.',
+    'note': 'Both ends are bumble, so REJ/SREJ/RNR and real loss are never met; only delays (incl. beyond the retransmission timer) occur.',
 }
 
 NOT_CLAIMED = {}
